@@ -287,7 +287,25 @@ func trimStack(b []byte) string {
 	return s
 }
 
-func sameClass(a, b *Violation) bool { return a != nil && b != nil && a.Class == b.Class }
+// sameClass: a shrink candidate must keep the class AND the structural facts (minus the
+// environment description), otherwise shrinking morphs one defect into another one of the same
+// class - in particular an unknown defect into a known finding.
+func sameClass(a, b *Violation) bool {
+	if a == nil || b == nil || a.Class != b.Class {
+		return false
+	}
+	for _, k := range sortedFactKeys(a.Facts) {
+		if k != "env" && a.Facts[k] != b.Facts[k] {
+			return false
+		}
+	}
+	for _, k := range sortedFactKeys(b.Facts) {
+		if _, ok := a.Facts[k]; !ok && k != "env" {
+			return false
+		}
+	}
+	return true
+}
 
 func shrinkAndWrite(p *Prop, r Result, idx uint64) string {
 	best := r.Tape
